@@ -54,6 +54,7 @@ def run(ctx):
     ctx.cov["rule"] = ("script = Join over k in 0..4 inputs with per-input capacities 0..2, distinct elements distributed over the inputs, random interleaving of "
                        "sends, closes and receives, final drain; non-trivial = k >= 2 and at least two inputs carried an element")
     ctx.assumptions += ls.ASSUME
+    ls.regen_stages(ctx, pipe=True, fork=False)
     ctx.prove()
     if ctx.thorough():
         ctx.leanchecker()
